@@ -495,4 +495,6 @@ RULES = [
     Rule("C06.T9", rule_T9, floor=3, doc="direction tables"),
     Rule("C06.T10", rule_T10, floor=5, doc="coordinate / target tokenizers"),
     Rule("C06.T11", rule_T11, floor=7, doc="adjacency pipeline and permuters"),
+    Rule("C06.E12", lambda ctx: __import__("sa.mypyx", fromlist=["x"]).cross_check(ctx, [f"{MT}.MazeTokenizerModular.to_tokens"], "C06.E12"), floor=1,
+         doc="thorough: call graph over-approximates mypy's type-resolved edges on the to_tokens closure", tier="thorough"),
 ]
